@@ -93,4 +93,17 @@ def writer_goal_keys(fn, table_attr="lanelets_of_goal_position"):
             out.append((x, norm(x.args[0]) == iv))
     if not out:
         raise AnalysisError("%s: the goal-lanelet table is never consulted" % fn.name)
+    # what is handed on for goal state i must be determined in iteration i: a local that also has a definition
+    # outside the loop reaching its use is carried over from an earlier goal state on the paths that skip the store
+    body_nodes = {id(n) for st in loops[0].body for n in ast.walk(st)}
+    elem = norm(loops[0].target.elts[1])
+    for c in ast.walk(loops[0]):
+        if isinstance(c, ast.Call) and any(norm(a) == elem for a in c.args):
+            st = rd.stmt_of(c)
+            for a in list(c.args) + [k.value for k in c.keywords]:
+                if isinstance(a, ast.Name) and a.id != elem and a.id != iv:
+                    ds = rd.defs(a.id, st)
+                    inside = [d for d in ds if d.stmt is not None and id(d.stmt) in body_nodes]
+                    if inside and len(inside) != len(ds):
+                        out.append((a, False))
     return out
